@@ -5,8 +5,8 @@
 //	struct            Go struct, fields in schema order
 //	optional/nullable *T; for struct fields also T itself when T's Go kind has a nil (slice, map, interface)
 //	optional nullable **T
-//	list              slice (nullable elements: *T)
-//	map               struct{Keys []K; Values map[K]V} (nullable values: *V)
+//	list              slice (nullable elements: *T or nilable T)
+//	map               struct{Keys []K; Values map[K]V} (nullable values: *V or nilable V)
 //	union             struct with one pointer field per member, exactly one set
 //	int               any Go signed or unsigned integer kind
 //	float             float32 / float64
@@ -127,14 +127,14 @@ func (s *Shape) GoType(t *rs.Type) reflect.Type {
 	case "list":
 		e := s.GoType(s.TS.T(t.ValueType))
 		if t.ValueNullable {
-			e = reflect.PointerTo(e) // nilable-without-pointer is documented for struct fields only
+			e = s.maybe(e)
 		}
 		g = reflect.SliceOf(e)
 	case "map":
 		k := s.keyType(s.TS.T(t.KeyType))
 		v := s.GoType(s.TS.T(t.ValueType))
 		if t.ValueNullable {
-			v = reflect.PointerTo(v)
+			v = s.maybe(v)
 		}
 		g = reflect.StructOf([]reflect.StructField{{Name: "Keys", Type: reflect.SliceOf(k)}, {Name: "Values", Type: reflect.MapOf(k, v)}})
 	case "struct":
